@@ -11,6 +11,7 @@ structure Quiet (s : Ev) : Prop where
   stored : s.stored = s.gathered
   pending : s.pending = 0
   rows : s.rows = s.gathered
+  offset : s.offset ≤ (s.gathered : Int)
 
 /-- the fields the loop never writes -/
 def SameCfg (s s' : Ev) : Prop :=
@@ -21,6 +22,11 @@ everything gathered is either pending or written -/
 structure Books (s : Ev) : Prop where
   stored : s.stored = s.gathered + s.running
   rows : s.rows + s.pending = s.gathered
+
+/-- closes the arithmetic / reflexivity side goals left after unfolding record updates -/
+macro "fin" : tactic =>
+  `(tactic| first | rfl | trivial | assumption | omega | (simp; done) | (simp; omega)
+                  | (dsimp only; omega) | (simp at *; done) | (simp at *; omega))
 
 /-! ### `submit` -/
 
@@ -41,14 +47,12 @@ structure SubmitSpec (s : Ev) (k : Nat) (r : Ev × Bool) : Prop where
 theorem submit_spec : ∀ (k : Nat) (s : Ev), SubmitSpec s k (submit s k)
   | 0, s => by
     simp only [submit]
-    exact ⟨⟨rfl, rfl, rfl, rfl⟩, rfl, rfl, rfl, rfl, Nat.le_refl _, by omega, by omega,
-      fun _ => rfl, fun h => by simp at h, fun _ h => h, fun _ => rfl⟩
+    constructor <;> (try unfold SameCfg) <;> (try dsimp only) <;> (try intros) <;> fin
   | k + 1, s => by
     simp only [submit]
     split
     · next h =>
-      exact ⟨⟨rfl, rfl, rfl, rfl⟩, rfl, rfl, rfl, rfl, Nat.le_refl _, by omega, by omega,
-        fun h' => by simp at h', fun _ => h, fun _ h' => h', fun h' => by omega⟩
+      constructor <;> (try unfold SameCfg) <;> (try dsimp only) <;> (try intros) <;> fin
     · next h =>
       have ih := submit_spec k { s with stored := s.stored + 1, running := s.running + 1 }
       obtain ⟨⟨c1, c2, c3, c4⟩, g, p, r, a, le, run, up, all, raised, capped, nocap⟩ := ih
@@ -62,16 +66,18 @@ theorem submit_spec : ∀ (k : Nat) (s : Ev), SubmitSpec s k (submit s k)
 
 /-! ### `gatherBatch1`, `gatherAll`, `dump`, `drain`, `close` -/
 
+/-- the state after a gather that reported `g` finished jobs -/
+def afterGather (s : Ev) (g : Nat) : Ev :=
+  { s with running := s.running - g, gathered := s.gathered + g, pending := s.pending + g }
+
 theorem gatherBatch1_ok {s : Ev} {g : Nat} (h : (gatherBatch1 s g).2 = .ok) :
-    1 ≤ g ∧ g ≤ s.running ∧
-    gatherBatch1 s g = ({ s with running := s.running - g, gathered := s.gathered + g,
-                                 pending := s.pending + g }, .ok) := by
+    1 ≤ g ∧ g ≤ s.running ∧ gatherBatch1 s g = (afterGather s g, .ok) := by
   unfold gatherBatch1 at h ⊢
   split at h
   · simp at h
   · split at h
     · simp at h
-    · next h1 h2 => simp only [h1, h2, if_false]; omega
+    · next h1 h2 => simp only [h1, h2, if_false, afterGather]; and_intros <;> fin
 
 theorem gatherBatch1_noJobs {s : Ev} {g : Nat} (h : (gatherBatch1 s g).2 = .noJobs) :
     s.running = 0 := by
@@ -80,22 +86,32 @@ theorem gatherBatch1_noJobs {s : Ev} {g : Nat} (h : (gatherBatch1 s g).2 = .noJo
   · assumption
   · split at h <;> simp at h
 
-theorem drain_spec {s : Ev} (hb : Books s) :
+theorem gatherBatch1_badEnv {s : Ev} {g : Nat} (h : (gatherBatch1 s g).2 = .badEnv) :
+    gatherBatch1 s g = (s, .badEnv) := by
+  unfold gatherBatch1 at h ⊢
+  split at h
+  · simp at h
+  · split at h
+    · next h1 h2 => simp only [h1, h2, if_true, if_false]
+    · simp at h
+
+theorem drain_spec {s : Ev} (hb : Books s) (hp : s.pending = 0) :
     (drain s).2 = false ∧ SameCfg s (drain s).1 ∧ Books (drain s).1 ∧
     (drain s).1.running = 0 ∧ (drain s).1.pending = 0 ∧ (drain s).1.stored = s.stored ∧
     (drain s).1.asks = s.asks := by
   obtain ⟨h1, h2⟩ := hb
   unfold drain
-  simp only [numSubmitted, numGathered, gatherAll, dump]
-  split
-  · next h =>
-    have : ¬ ((s.stored : Int) - s.offset > ((s.gathered + s.running : Nat) : Int) - s.offset) := by
-      omega
+  by_cases h : numSubmitted s > numGathered s
+  · simp only [h, if_true]
+    have : ¬ (numSubmitted (dump (gatherAll s)) > numGathered (dump (gatherAll s))) := by
+      simp only [numSubmitted, numGathered, gatherAll, dump]; omega
     simp only [this, if_false]
-    exact ⟨rfl, ⟨rfl, rfl, rfl, rfl⟩, ⟨by simp; omega, by simp; omega⟩, rfl, rfl, rfl, rfl⟩
-  · next h =>
+    simp only [gatherAll, dump]
+    refine ⟨?_, ?_, ⟨?_, ?_⟩, ?_, ?_, ?_, ?_⟩ <;> (try unfold SameCfg) <;> fin
+  · simp only [h, if_false]
+    simp only [numSubmitted, numGathered] at h
     have hr : s.running = 0 := by omega
-    exact ⟨rfl, ⟨rfl, rfl, rfl, rfl⟩, ⟨h1, h2⟩, hr, by omega, rfl, rfl⟩
+    refine ⟨?_, ?_, ⟨?_, ?_⟩, ?_, ?_, ?_, ?_⟩ <;> (try unfold SameCfg) <;> fin
 
 theorem close_idle {s : Ev} (h : s.running = 0) : close s = s := by
   cases s; simp only [close] at *; subst h; simp
@@ -105,93 +121,574 @@ theorem dump_idle {s : Ev} (h : s.pending = 0) : dump s = s := by
 
 /-! ### the loop, non-strict budget (`num_evals = num_jobs_gathered`, no cap) -/
 
-/-- what the loop guarantees in non-strict mode, relative to the call's entry count `G0`:
-`target = n + (G0 - offset)` -/
+/-- what the loop guarantees in non-strict mode, relative to the call's entry count `G0`
+(`target = n + (G0 - offset)`) -/
+structure PlainSpec (n G0 W : Nat) (env : List Step) (s : Ev) (r : Ev × Stop) : Prop where
+  cfg : SameCfg s r.1
+  books : Books r.1
+  pending : r.1.pending = 0
+  le : s.stored ≤ r.1.stored
+  upper : r.1.stored < G0 + n + W
+  stops : r.2 = .budget ∨ r.2 = .timeout ∨ r.2 = .badEnv ∨ r.2 = .envExhausted
+  budget : r.2 = .budget → G0 + n ≤ r.1.gathered
+  timeout : r.2 = .timeout → s.timeoutSet = true ∧ ∃ st ∈ env, st.expired = true
+  badEnv : r.2 = .badEnv → ∃ st ∈ env, st.g = 0 ∨ W < st.g
+  exhausted : r.2 = .envExhausted → s.gathered + env.length < G0 + n
+
+macro "plain_spec" : tactic =>
+  `(tactic| (refine ⟨⟨?_, ?_, ?_, ?_⟩, ⟨?_, ?_⟩, ?_, ?_, ?_, ?_, ?_, ?_, ?_, ?_⟩ <;>
+      (try dsimp only) <;> (try intros) <;> fin))
+
+theorem exists_mem_cons {α} {P : α → Prop} {a : α} {l : List α} (h : ∃ x ∈ l, P x) :
+    ∃ x ∈ a :: l, P x := by
+  obtain ⟨x, hx, hp⟩ := h
+  exact ⟨x, List.mem_cons_of_mem _ hx, hp⟩
+
 theorem loop_plain (n : Nat) (G0 : Nat) (W : Nat) (hW : 1 ≤ W) :
-    ∀ (env : List Step) (s : Ev) (nAsk : Nat),
+    ∀ (env : List Step) (s : Ev) (nAsk : Nat) (T : Int),
+      T = (n : Int) + ((G0 : Int) - s.offset) →
       s.W = W → s.maxSub ≤ 0 → Books s → s.pending = 0 → s.running + nAsk = W →
-      G0 ≤ s.gathered → s.stored < G0 + n + W →
-      let r := loop false ((n : Int) + ((G0 : Int) - s.offset)) s nAsk env
-      SameCfg s r.1 ∧ Books r.1 ∧ r.1.pending = 0 ∧ s.stored ≤ r.1.stored ∧
-      r.1.stored < G0 + n + W ∧
-      (r.2 = .budget ∨ r.2 = .timeout ∨ r.2 = .badEnv ∨ r.2 = .envExhausted) ∧
-      (r.2 = .budget → G0 + n ≤ r.1.gathered) ∧
-      (r.2 = .timeout → s.timeoutSet = true) := by
+      G0 ≤ s.gathered → s.stored < G0 + n + W → s.offset ≤ (G0 : Int) →
+      PlainSpec n G0 W env s (loop false T s nAsk env) := by
   intro env
   induction env with
   | nil =>
-    intro s nAsk hsW hcap hb hp hrun hG hup
-    simp only
+    intro s nAsk T hT hsW hcap hb hp hrun hG hup hoff
+    obtain ⟨hb1, hb2⟩ := hb
     unfold loop
-    split
-    · exact ⟨⟨rfl, rfl, rfl, rfl⟩, hb, hp, Nat.le_refl _, hup, by simp, by simp, by simp⟩
-    · next hc =>
-      refine ⟨⟨rfl, rfl, rfl, rfl⟩, hb, hp, Nat.le_refl _, hup, by simp, ?_, by simp⟩
-      intro _
-      simp only [numEvals, numGathered, Bool.false_eq_true, if_false] at hc
-      omega
-  | cons st rest ih =>
-    intro s nAsk hsW hcap hb hp hrun hG hup
-    simp only
-    unfold loop
+    simp only [numEvals, numGathered, Bool.false_eq_true, if_false]
     split
     · next hc =>
-      simp only [numEvals, numGathered, Bool.false_eq_true, if_false] at hc
       have hlt : s.gathered < G0 + n := by omega
       have sp := submit_spec nAsk { s with asks := s.asks ++ [nAsk] }
+      generalize hsub : submit { s with asks := s.asks ++ [nAsk] } nAsk = sub at sp ⊢
+      obtain ⟨s1, raised⟩ := sub
       obtain ⟨⟨c1, c2, c3, c4⟩, sg, spd, sr, _, sle, srun, sup, sall, _, _, snocap⟩ := sp
       simp only at c1 c2 c3 c4 sg spd sr sle srun sup sall snocap
       have hnr := snocap hcap
-      simp only [hnr, Bool.false_eq_true, if_false]
-      have hst := sall hnr
+      subst hnr
+      simp only [Bool.false_eq_true, if_false]
+      have hst := sall rfl
+      plain_spec
+    · plain_spec
+  | cons st rest ih =>
+    intro s nAsk T hT hsW hcap hb hp hrun hG hup hoff
+    obtain ⟨hb1, hb2⟩ := hb
+    unfold loop
+    simp only [numEvals, numGathered, Bool.false_eq_true, if_false]
+    split
+    · next hc =>
+      have hlt : s.gathered < G0 + n := by omega
+      have sp := submit_spec nAsk { s with asks := s.asks ++ [nAsk] }
+      generalize hsub : submit { s with asks := s.asks ++ [nAsk] } nAsk = sub at sp ⊢
+      obtain ⟨s1, raised⟩ := sub
+      obtain ⟨⟨c1, c2, c3, c4⟩, sg, spd, sr, _, sle, srun, sup, sall, _, _, snocap⟩ := sp
+      simp only at c1 c2 c3 c4 sg spd sr sle srun sup sall snocap
+      have hnr := snocap hcap
+      subst hnr
+      simp only [Bool.false_eq_true, if_false]
+      have hst := sall rfl
       -- after the submit: running = W
-      cases hga : (gatherBatch1 (submit { s with asks := s.asks ++ [nAsk] } nAsk).1 st.g).2 with
+      cases hga : (gatherBatch1 s1 st.g).2 with
       | noJobs =>
         have := gatherBatch1_noJobs hga
-        obtain ⟨hb1, _⟩ := hb
         omega
       | badEnv =>
-        simp only
-        unfold gatherBatch1
-        unfold gatherBatch1 at hga
-        split at hga
-        · simp at hga
-        · split at hga
-          · next h1 h2 =>
-            simp only [h1, h2, if_true, if_false]
-            obtain ⟨hb1, hb2⟩ := hb
-            exact ⟨⟨c1, c2, c3, c4⟩, ⟨by omega, by omega⟩, by omega, by omega, by omega,
-              by simp, by simp, by simp⟩
+        have hbad : st.g = 0 ∨ W < st.g := by
+          unfold gatherBatch1 at hga
+          split at hga
           · simp at hga
+          · split at hga
+            · next h => omega
+            · simp at hga
+        rw [gatherBatch1_badEnv hga]
+        refine ⟨⟨?_, ?_, ?_, ?_⟩, ⟨?_, ?_⟩, ?_, ?_, ?_, ?_, ?_, ?_, ?_, ?_⟩ <;>
+          (try dsimp only) <;> (try intros) <;>
+          first | fin | exact ⟨st, List.mem_cons_self .., hbad⟩
       | ok =>
         obtain ⟨hg1, hg2, heq⟩ := gatherBatch1_ok hga
         simp only [heq]
-        obtain ⟨hb1, hb2⟩ := hb
         split
         · next ht =>
-          simp only [dump] at ht ⊢
-          refine ⟨⟨c1, c2, c3, c4⟩, ⟨by simp; omega, by simp; omega⟩, rfl, by simp; omega,
-            by simp; omega, by simp, by simp, ?_⟩
-          intro _; rw [← c4]; exact ht.1
+          have ht1 : s.timeoutSet = true := by
+            simp only [dump, afterGather] at ht; rw [← c4]; exact ht.1
+          have ht2 : st.expired = true := ht.2
+          simp only [dump, afterGather]
+          refine ⟨⟨?_, ?_, ?_, ?_⟩, ⟨?_, ?_⟩, ?_, ?_, ?_, ?_, ?_, ?_, ?_, ?_⟩ <;>
+            (try dsimp only) <;> (try intros) <;>
+            first | fin | exact ⟨ht1, st, List.mem_cons_self .., ht2⟩
         · next ht =>
-          have := ih (dump { (submit { s with asks := s.asks ++ [nAsk] } nAsk).1 with
-              running := (submit { s with asks := s.asks ++ [nAsk] } nAsk).1.running - st.g,
-              gathered := (submit { s with asks := s.asks ++ [nAsk] } nAsk).1.gathered + st.g,
-              pending := (submit { s with asks := s.asks ++ [nAsk] } nAsk).1.pending + st.g }) st.g
-            (by simp [dump]; omega) (by simp [dump]; omega)
-            ⟨by simp [dump]; omega, by simp [dump]; omega⟩ (by simp [dump])
-            (by simp [dump]; omega) (by simp [dump]; omega) (by simp [dump]; omega)
-          simp only [dump] at this ⊢
-          rw [c2] at this
-          obtain ⟨⟨d1, d2, d3, d4⟩, db, dp, dle, dup, dstop, dbud, dto⟩ := this
-          simp only at d1 d2 d3 d4 dle
+          have := ih (dump (afterGather s1 st.g)) st.g T
+            (by simp [dump, afterGather]; omega)
+            (by simp [dump, afterGather]; omega) (by simp [dump, afterGather]; omega)
+            ⟨by simp [dump, afterGather]; omega, by simp [dump, afterGather]; omega⟩
+            (by simp [dump, afterGather])
+            (by simp [dump, afterGather]; omega) (by simp [dump, afterGather]; omega)
+            (by simp [dump, afterGather]; omega) (by simp [dump, afterGather]; omega)
+          generalize loop false T (dump (afterGather s1 st.g)) st.g rest = r at this ⊢
+          obtain ⟨⟨d1, d2, d3, d4⟩, db, dp, dle, dup, dstop, dbud, dto, dbad, dex⟩ := this
+          simp only [dump, afterGather] at d1 d2 d3 d4 dle dto dex
           refine ⟨⟨by omega, by omega, by omega, by rw [d4, c4]⟩, db, dp, by omega, dup, dstop,
-            dbud, ?_⟩
-          intro h; rw [← c4]; exact dto h
+            dbud, ?_, ?_, ?_⟩
+          · intro h; exact ⟨by rw [← c4]; exact (dto h).1, exists_mem_cons (dto h).2⟩
+          · intro h; exact exists_mem_cons (dbad h)
+          · intro h; have := dex h; simp only [List.length_cons]; omega
     · next hc =>
-      refine ⟨⟨rfl, rfl, rfl, rfl⟩, hb, hp, Nat.le_refl _, hup, by simp, ?_, by simp⟩
-      intro _
-      simp only [numEvals, numGathered, Bool.false_eq_true, if_false] at hc
-      omega
+      plain_spec
+
+/-! ### the loop, strict budget (`num_evals = num_jobs_submitted`, cap = `n`, offset = entry count) -/
+
+structure StrictSpec (n G0 W : Nat) (env : List Step) (s : Ev) (r : Ev × Stop) : Prop where
+  cfg : SameCfg s r.1
+  books : Books r.1
+  pending : r.1.pending = 0
+  le : s.stored ≤ r.1.stored
+  upper : r.1.stored ≤ G0 + n
+  stops : r.2 = .budget ∨ r.2 = .cap ∨ r.2 = .timeout ∨ r.2 = .badEnv ∨ r.2 = .envExhausted
+  exact : r.2 = .budget ∨ r.2 = .cap → r.1.stored = G0 + n
+  timeout : r.2 = .timeout → s.timeoutSet = true ∧ ∃ st ∈ env, st.expired = true
+  badEnv : r.2 = .badEnv → ∃ st ∈ env, st.g = 0 ∨ W < st.g
+  exhausted : r.2 = .envExhausted → s.stored + env.length < G0 + n
+
+macro "strict_spec" : tactic =>
+  `(tactic| (refine ⟨⟨?_, ?_, ?_, ?_⟩, ⟨?_, ?_⟩, ?_, ?_, ?_, ?_, ?_, ?_, ?_, ?_⟩ <;>
+      (try dsimp only) <;> (try intros) <;> fin))
+
+theorem loop_strict (n : Nat) (G0 : Nat) (W : Nat) (hW : 1 ≤ W) :
+    ∀ (env : List Step) (s : Ev) (nAsk : Nat),
+      s.W = W → s.maxSub = (n : Int) → s.offset = (G0 : Int) → Books s → s.pending = 0 →
+      s.running + nAsk = W → 1 ≤ nAsk → G0 ≤ s.stored → s.stored ≤ G0 + n →
+      StrictSpec n G0 W env s (loop true (n : Int) s nAsk env) := by
+  intro env
+  induction env with
+  | nil =>
+    intro s nAsk hsW hcap hoff hb hp hrun hask hG hup
+    obtain ⟨hb1, hb2⟩ := hb
+    unfold loop
+    simp only [numEvals, numSubmitted, if_true]
+    split
+    · next hc =>
+      have hlt : s.stored < G0 + n := by omega
+      have sp := submit_spec nAsk { s with asks := s.asks ++ [nAsk] }
+      generalize hsub : submit { s with asks := s.asks ++ [nAsk] } nAsk = sub at sp ⊢
+      obtain ⟨s1, raised⟩ := sub
+      obtain ⟨⟨c1, c2, c3, c4⟩, sg, spd, sr, _, sle, srun, sup, sall, sraised, scapped, _⟩ := sp
+      simp only [numSubmitted] at c1 c2 c3 c4 sg spd sr sle srun sup sall sraised scapped
+      have hcapd := scapped (by omega) (by omega)
+      cases raised with
+      | true =>
+        have := sraised rfl
+        simp only [if_true]
+        strict_spec
+      | false =>
+        simp only [Bool.false_eq_true, if_false]
+        have hst := sall rfl
+        strict_spec
+    · strict_spec
+  | cons st rest ih =>
+    intro s nAsk hsW hcap hoff hb hp hrun hask hG hup
+    obtain ⟨hb1, hb2⟩ := hb
+    unfold loop
+    simp only [numEvals, numSubmitted, if_true]
+    split
+    · next hc =>
+      have hlt : s.stored < G0 + n := by omega
+      have sp := submit_spec nAsk { s with asks := s.asks ++ [nAsk] }
+      generalize hsub : submit { s with asks := s.asks ++ [nAsk] } nAsk = sub at sp ⊢
+      obtain ⟨s1, raised⟩ := sub
+      obtain ⟨⟨c1, c2, c3, c4⟩, sg, spd, sr, _, sle, srun, sup, sall, sraised, scapped, _⟩ := sp
+      simp only [numSubmitted] at c1 c2 c3 c4 sg spd sr sle srun sup sall sraised scapped
+      have hcapd := scapped (by omega) (by omega)
+      cases raised with
+      | true =>
+        have := sraised rfl
+        simp only [if_true]
+        strict_spec
+      | false =>
+        simp only [Bool.false_eq_true, if_false]
+        have hst := sall rfl
+        cases hga : (gatherBatch1 s1 st.g).2 with
+        | noJobs =>
+          have := gatherBatch1_noJobs hga
+          omega
+        | badEnv =>
+          have hbad : st.g = 0 ∨ W < st.g := by
+            unfold gatherBatch1 at hga
+            split at hga
+            · simp at hga
+            · split at hga
+              · next h => omega
+              · simp at hga
+          rw [gatherBatch1_badEnv hga]
+          refine ⟨⟨?_, ?_, ?_, ?_⟩, ⟨?_, ?_⟩, ?_, ?_, ?_, ?_, ?_, ?_, ?_, ?_⟩ <;>
+            (try dsimp only) <;> (try intros) <;>
+            first | fin | exact ⟨st, List.mem_cons_self .., hbad⟩
+        | ok =>
+          obtain ⟨hg1, hg2, heq⟩ := gatherBatch1_ok hga
+          simp only [heq]
+          split
+          · next ht =>
+            have ht1 : s.timeoutSet = true := by
+              simp only [dump, afterGather] at ht; rw [← c4]; exact ht.1
+            have ht2 : st.expired = true := ht.2
+            simp only [dump, afterGather]
+            refine ⟨⟨?_, ?_, ?_, ?_⟩, ⟨?_, ?_⟩, ?_, ?_, ?_, ?_, ?_, ?_, ?_, ?_⟩ <;>
+              (try dsimp only) <;> (try intros) <;>
+              first | fin | exact ⟨ht1, st, List.mem_cons_self .., ht2⟩
+          · next ht =>
+            have := ih (dump (afterGather s1 st.g)) st.g
+              (by simp [dump, afterGather]; omega) (by simp [dump, afterGather]; omega)
+              (by simp [dump, afterGather]; omega)
+              ⟨by simp [dump, afterGather]; omega, by simp [dump, afterGather]; omega⟩
+              (by simp [dump, afterGather])
+              (by simp [dump, afterGather]; omega) (by omega)
+              (by simp [dump, afterGather]; omega) (by simp [dump, afterGather]; omega)
+            generalize loop true (n : Int) (dump (afterGather s1 st.g)) st.g rest = r at this ⊢
+            obtain ⟨⟨d1, d2, d3, d4⟩, db, dp, dle, dup, dstop, dex, dto, dbad, dexh⟩ := this
+            simp only [dump, afterGather] at d1 d2 d3 d4 dle dto dexh
+            refine ⟨⟨by omega, by omega, by omega, by rw [d4, c4]⟩, db, dp, by omega, dup, dstop,
+              dex, ?_, ?_, ?_⟩
+            · intro h; exact ⟨by rw [← c4]; exact (dto h).1, exists_mem_cons (dto h).2⟩
+            · intro h; exact exists_mem_cons (dbad h)
+            · intro h; have := dexh h; simp only [List.length_cons]; omega
+    · next hc =>
+      strict_spec
+
+/-! ### the loop in general (any target, any cap): bookkeeping only -/
+
+structure AnySpec (s : Ev) (r : Ev × Stop) : Prop where
+  cfg : SameCfg s r.1
+  books : Books r.1
+  pending : r.1.pending = 0
+  le : s.stored ≤ r.1.stored
+  stops : r.2 = .budget ∨ r.2 = .cap ∨ r.2 = .timeout ∨ r.2 = .badEnv ∨ r.2 = .envExhausted
+  timeout : r.2 = .timeout → s.timeoutSet = true
+
+macro "any_spec" : tactic =>
+  `(tactic| (refine ⟨⟨?_, ?_, ?_, ?_⟩, ⟨?_, ?_⟩, ?_, ?_, ?_, ?_⟩ <;>
+      (try dsimp only) <;> (try intros) <;> fin))
+
+theorem loop_any (strict : Bool) (T : Int) (W : Nat) (hW : 1 ≤ W) :
+    ∀ (env : List Step) (s : Ev) (nAsk : Nat),
+      s.W = W → Books s → s.pending = 0 → s.running + nAsk = W → 1 ≤ nAsk →
+      AnySpec s (loop strict T s nAsk env) := by
+  intro env
+  induction env with
+  | nil =>
+    intro s nAsk hsW hb hp hrun hask
+    obtain ⟨hb1, hb2⟩ := hb
+    unfold loop
+    dsimp only
+    split
+    · next hc =>
+      have sp := submit_spec nAsk { s with asks := s.asks ++ [nAsk] }
+      generalize hsub : submit { s with asks := s.asks ++ [nAsk] } nAsk = sub at sp ⊢
+      obtain ⟨s1, raised⟩ := sub
+      obtain ⟨⟨c1, c2, c3, c4⟩, sg, spd, sr, _, sle, srun, sup, sall, _, _, _⟩ := sp
+      simp only at c1 c2 c3 c4 sg spd sr sle srun sup sall
+      cases raised with
+      | true =>
+        simp only [if_true]
+        any_spec
+      | false =>
+        simp only [Bool.false_eq_true, if_false]
+        have hst := sall rfl
+        any_spec
+    · any_spec
+  | cons st rest ih =>
+    intro s nAsk hsW hb hp hrun hask
+    obtain ⟨hb1, hb2⟩ := hb
+    unfold loop
+    dsimp only
+    split
+    · next hc =>
+      have sp := submit_spec nAsk { s with asks := s.asks ++ [nAsk] }
+      generalize hsub : submit { s with asks := s.asks ++ [nAsk] } nAsk = sub at sp ⊢
+      obtain ⟨s1, raised⟩ := sub
+      obtain ⟨⟨c1, c2, c3, c4⟩, sg, spd, sr, _, sle, srun, sup, sall, _, _, _⟩ := sp
+      simp only at c1 c2 c3 c4 sg spd sr sle srun sup sall
+      cases raised with
+      | true =>
+        simp only [if_true]
+        any_spec
+      | false =>
+        simp only [Bool.false_eq_true, if_false]
+        have hst := sall rfl
+        cases hga : (gatherBatch1 s1 st.g).2 with
+        | noJobs =>
+          have := gatherBatch1_noJobs hga
+          omega
+        | badEnv =>
+          rw [gatherBatch1_badEnv hga]
+          any_spec
+        | ok =>
+          obtain ⟨hg1, hg2, heq⟩ := gatherBatch1_ok hga
+          simp only [heq]
+          split
+          · next ht =>
+            have ht1 : s.timeoutSet = true := by
+              simp only [dump, afterGather] at ht; rw [← c4]; exact ht.1
+            simp only [dump, afterGather]
+            any_spec
+          · next ht =>
+            have := ih (dump (afterGather s1 st.g)) st.g
+              (by simp [dump, afterGather]; omega)
+              ⟨by simp [dump, afterGather]; omega, by simp [dump, afterGather]; omega⟩
+              (by simp [dump, afterGather])
+              (by simp [dump, afterGather]; omega) (by omega)
+            generalize loop strict T (dump (afterGather s1 st.g)) st.g rest = r at this ⊢
+            obtain ⟨⟨d1, d2, d3, d4⟩, db, dp, dle, dstop, dto⟩ := this
+            simp only [dump, afterGather] at d1 d2 d3 d4 dle dto
+            exact ⟨⟨by omega, by omega, by omega, by rw [d4, c4]⟩, db, dp, by omega, dstop,
+              fun h => by rw [← c4]; exact dto h⟩
+    · next hc =>
+      any_spec
+
+/-! ### `searchCall` on the repaired code, split into its phases -/
+
+/-- `_check_timeout` raises -/
+def badTimeout (c : Call) : Bool :=
+  match c.timeout with | some t => decide (t ≤ 0) | none => false
+
+/-- the evaluator after the cap / timeout have been (re)set for this call -/
+def prep (s : Ev) (c : Call) : Ev :=
+  let s1 := if c.strict then setMax {} s c.maxEvals else { s with maxSub := -1 }
+  match c.timeout with
+  | some _ => { s1 with timeoutSet := true }
+  | none => { s1 with timeoutSet := false }
+
+def target (c : Call) (s2 : Ev) : Int :=
+  if c.maxEvals < 0 then c.maxEvals else c.maxEvals + numEvals c.strict s2
+
+/-- everything after the loop -/
+def finish (s : Ev) (lp : Ev × Stop) : Ev × Out :=
+  match lp.2 with
+  | .noJobs => (lp.1, mkOut s lp.1 .noJobs false)
+  | .badEnv => (lp.1, mkOut s lp.1 .badEnv false)
+  | .envExhausted => (lp.1, mkOut s lp.1 .envExhausted false)
+  | stop =>
+    let dr := drain lp.1
+    if dr.2 then (dr.1, mkOut s dr.1 .hang false)
+    else
+      let s5 := dump (close dr.1)
+      (s5, mkOut s s5 stop true)
+
+theorem searchCall_def (s : Ev) (c : Call) (env : List Step) :
+    searchCall {} s c env =
+      if badTimeout c then (s, mkOut s s .badTimeout false)
+      else finish s (loop c.strict (target c (prep s c)) (prep s c) (prep s c).W env) := by
+  obtain ⟨n, strict, to⟩ := c
+  cases to <;> cases strict <;> rfl
+
+theorem prep_spec {s : Ev} (c : Call) (hq : Quiet s) :
+    (prep s c).W = s.W ∧ Books (prep s c) ∧ (prep s c).pending = 0 ∧ (prep s c).running = 0 ∧
+    (prep s c).stored = s.stored ∧ (prep s c).gathered = s.gathered ∧ (prep s c).rows = s.rows ∧
+    (prep s c).asks = s.asks ∧
+    (prep s c).offset ≤ (s.gathered : Int) ∧
+    (prep s c).timeoutSet = c.timeout.isSome ∧
+    (c.strict = true → (prep s c).offset = (s.gathered : Int) ∧ (prep s c).maxSub = c.maxEvals) ∧
+    (c.strict = false → (prep s c).offset = s.offset ∧ (prep s c).maxSub = -1) := by
+  obtain ⟨q1, q2, q3, q4, q5⟩ := hq
+  obtain ⟨n, strict, to⟩ := c
+  cases to <;> cases strict <;> simp [prep, setMax] <;> (refine ⟨⟨?_, ?_⟩, ?_⟩ <;> fin)
+
+/-- the part of `finish` that runs when the loop ended by budget / cap / timeout -/
+theorem finish_settled {s : Ev} {lp : Ev × Stop} (hb : Books lp.1) (hp : lp.1.pending = 0)
+    (hstop : lp.2 = .budget ∨ lp.2 = .cap ∨ lp.2 = .timeout) :
+    finish s lp = ((drain lp.1).1, mkOut s (drain lp.1).1 lp.2 true) := by
+  obtain ⟨hd, _, hdb, hdr, hdp, _, _⟩ := drain_spec hb hp
+  obtain ⟨l1, l2⟩ := lp
+  simp only at hstop hd hdr hdp ⊢
+  unfold finish
+  rcases hstop with h | h | h <;> subst h <;>
+    simp only [hd, close_idle hdr, dump_idle hdp, Bool.false_eq_true, if_false]
+
+theorem finish_unsettled {s : Ev} {lp : Ev × Stop}
+    (hstop : lp.2 = .badEnv ∨ lp.2 = .envExhausted) :
+    finish s lp = (lp.1, mkOut s lp.1 lp.2 false) := by
+  unfold finish
+  rcases hstop with h | h <;> rw [h]
+
+/-- the evaluator is settled after the call: it returned (budget, cap or timeout) or raised
+`ValueError` before touching anything -/
+def Settled (o : Out) : Prop :=
+  o.stop = .budget ∨ o.stop = .cap ∨ o.stop = .timeout ∨ o.stop = .badTimeout
+
+/-- everything a settled call guarantees, whatever its arguments -/
+structure CallSpec (s : Ev) (r : Ev × Out) : Prop where
+  quiet : Quiet r.1
+  W : r.1.W = s.W
+  rows : r.1.rows = s.rows + r.2.evals
+  table : r.2.stop ≠ .badTimeout → r.2.table = if r.1.rows = 0 then none else some r.1.rows
+
+theorem searchCall_settled (s : Ev) (c : Call) (env : List Step) (hW : 1 ≤ s.W) (hq : Quiet s)
+    (hs : Settled (searchCall {} s c env).2) : CallSpec s (searchCall {} s c env) := by
+  rw [searchCall_def] at hs ⊢
+  cases hbt : badTimeout c with
+  | true =>
+    simp only [if_true, mkOut]
+    exact ⟨hq, rfl, by simp, by simp⟩
+  | false =>
+    simp only [hbt, Bool.false_eq_true, if_false] at hs ⊢
+    obtain ⟨p1, p2, p3, p4, p5, p6, p7, p8, p9, p10, p11, p12⟩ := prep_spec c hq
+    have la := loop_any c.strict (target c (prep s c)) s.W hW env (prep s c) (prep s c).W
+      p1 p2 p3 (by omega) (by omega)
+    generalize loop c.strict (target c (prep s c)) (prep s c) (prep s c).W env = lp at la hs ⊢
+    obtain ⟨⟨c1, c2, c3, c4⟩, lb, lpd, lle, lstop, _⟩ := la
+    have hstop : lp.2 = .budget ∨ lp.2 = .cap ∨ lp.2 = .timeout := by
+      rcases lstop with h | h | h | h | h
+      · exact Or.inl h
+      · exact Or.inr (Or.inl h)
+      · exact Or.inr (Or.inr h)
+      · rw [finish_unsettled (Or.inl h)] at hs
+        simp [Settled, mkOut, h] at hs
+      · rw [finish_unsettled (Or.inr h)] at hs
+        simp [Settled, mkOut, h] at hs
+    rw [finish_settled lb lpd hstop]
+    obtain ⟨_, ⟨e1, e2, e3, e4⟩, ⟨db1, db2⟩, dr, dp, dst, _⟩ := drain_spec lb lpd
+    obtain ⟨q1, q2, q3, q4, q5⟩ := hq
+    refine ⟨⟨dr, ?_, dp, ?_, ?_⟩, ?_, ?_, ?_⟩
+    · dsimp only; omega
+    · dsimp only; omega
+    · dsimp only; omega
+    · dsimp only; omega
+    · simp only [mkOut]; omega
+    · intro _
+      simp only [mkOut]
+      by_cases h0 : (drain lp.1).1.rows = 0 <;> simp [h0]
+
+/-- the schedule respects the contract of `asyncio.wait(FIRST_COMPLETED)` (with `W` jobs in
+flight it reports between 1 and `W` finished jobs) -/
+def EnvOK (W : Nat) (env : List Step) : Prop := ∀ st ∈ env, 1 ≤ st.g ∧ st.g ≤ W
+
+/-- the clock never passes the deadline during the schedule -/
+def NoExpiry (env : List Step) : Prop := ∀ st ∈ env, st.expired = false
+
+/-- budget of one call with `max_evals = n ≥ 0` on a quiescent evaluator -/
+structure BudgetSpec (s : Ev) (c : Call) (env : List Step) (r : Ev × Out) : Prop where
+  /-- the loop can only end in these ways -/
+  stops : r.2.stop = .budget ∨ r.2.stop = .cap ∨ r.2.stop = .timeout ∨ r.2.stop = .badEnv ∨
+          r.2.stop = .envExhausted
+  /-- at least `n`, fewer than `n + W`, exactly `n` when strict -/
+  lower : r.2.stop = .budget ∨ r.2.stop = .cap → c.maxEvals ≤ (r.2.evals : Int)
+  upper : (r.2.evals : Int) < c.maxEvals + s.W
+  strict : c.strict = true → r.2.stop = .budget ∨ r.2.stop = .cap → (r.2.evals : Int) = c.maxEvals
+  strictUpper : c.strict = true → (r.2.evals : Int) ≤ c.maxEvals
+  capOnlyStrict : r.2.stop = .cap → c.strict = true
+  /-- a timeout stop needs a timeout argument and an expired reading of the clock -/
+  timeout : r.2.stop = .timeout → c.timeout.isSome = true ∧ ∃ st ∈ env, st.expired = true
+  badEnv : r.2.stop = .badEnv → ¬ EnvOK s.W env
+  exhausted : r.2.stop = .envExhausted → (env.length : Int) < c.maxEvals
+
+theorem not_envOK {W : Nat} {env : List Step} (h : ∃ st ∈ env, st.g = 0 ∨ W < st.g) :
+    ¬ EnvOK W env := by
+  intro hok
+  obtain ⟨st, hm, hb⟩ := h
+  have := hok st hm
+  omega
+
+theorem searchCall_budget (s : Ev) (c : Call) (env : List Step) (hW : 1 ≤ s.W) (hq : Quiet s)
+    (hn : 0 ≤ c.maxEvals) (hbt : badTimeout c = false) :
+    BudgetSpec s c env (searchCall {} s c env) := by
+  rw [searchCall_def]
+  simp only [hbt, Bool.false_eq_true, if_false]
+  obtain ⟨p1, p2, p3, p4, p5, p6, p7, p8, p9, p10, p11, p12⟩ := prep_spec c hq
+  obtain ⟨q1, q2, q3, q4, q5⟩ := hq
+  obtain ⟨n, hnn⟩ : ∃ n : Nat, c.maxEvals = (n : Int) := ⟨c.maxEvals.toNat, by omega⟩
+  cases hstrict : c.strict with
+  | false =>
+    obtain ⟨o1, o2⟩ := p12 hstrict
+    have hT : target c (prep s c) = (n : Int) + ((s.gathered : Int) - (prep s c).offset) := by
+      simp only [target, numEvals, numGathered, hstrict, Bool.false_eq_true, if_false]
+      rw [if_neg (by omega), p6, hnn]
+    have lpl := loop_plain n s.gathered s.W hW env (prep s c) (prep s c).W _ hT p1 (by omega) p2 p3
+      (by omega) (by omega) (by omega) (by omega)
+    generalize loop false (target c (prep s c)) (prep s c) (prep s c).W env = lp at lpl ⊢
+    obtain ⟨⟨c1, c2, c3, c4⟩, lb, lpd, lle, lup, lstop, lbud, lto, lbad, lex⟩ := lpl
+    obtain ⟨_, _, ⟨db1, db2⟩, dr, dp, dst, _⟩ := drain_spec lb lpd
+    rcases lstop with h | h | h | h
+    · rw [finish_settled lb lpd (Or.inl h)]
+      have := lbud h
+      obtain ⟨lb1, lb2⟩ := lb
+      refine ⟨?_, ?_, ?_, ?_, ?_, ?_, ?_, ?_, ?_⟩ <;> simp only [mkOut, h] <;> (try intros) <;> first | fin | (simp [hstrict] at *; done)
+    · rw [finish_settled lb lpd (Or.inr (Or.inr h))]
+      obtain ⟨lb1, lb2⟩ := lb
+      have hto := lto h
+      refine ⟨?_, ?_, ?_, ?_, ?_, ?_, ?_, ?_, ?_⟩ <;> simp only [mkOut, h] <;> (try intros) <;>
+        first | fin | (simp [hstrict] at *; done) | exact ⟨by rw [← p10]; exact hto.1, hto.2⟩
+    · rw [finish_unsettled (Or.inl h)]
+      obtain ⟨lb1, lb2⟩ := lb
+      have := not_envOK (lbad h)
+      refine ⟨?_, ?_, ?_, ?_, ?_, ?_, ?_, ?_, ?_⟩ <;> simp only [mkOut, h] <;> (try intros) <;> first | fin | (simp [hstrict] at *; done)
+    · rw [finish_unsettled (Or.inr h)]
+      obtain ⟨lb1, lb2⟩ := lb
+      have := lex h
+      refine ⟨?_, ?_, ?_, ?_, ?_, ?_, ?_, ?_, ?_⟩ <;> simp only [mkOut, h] <;> (try intros) <;> first | fin | (simp [hstrict] at *; done)
+  | true =>
+    obtain ⟨o1, o2⟩ := p11 hstrict
+    have hT : target c (prep s c) = (n : Int) := by
+      simp only [target, numEvals, numSubmitted, hstrict, if_true]
+      rw [if_neg (by omega), p5, o1, hnn]; omega
+    rw [hT]
+    have lst := loop_strict n s.gathered s.W hW env (prep s c) (prep s c).W p1 (by omega) o1 p2 p3
+      (by omega) (by omega) (by omega) (by omega)
+    generalize loop true (n : Int) (prep s c) (prep s c).W env = lp at lst ⊢
+    obtain ⟨⟨c1, c2, c3, c4⟩, lb, lpd, lle, lup, lstop, lexa, lto, lbad, lex⟩ := lst
+    obtain ⟨_, _, ⟨db1, db2⟩, dr, dp, dst, _⟩ := drain_spec lb lpd
+    rcases lstop with h | h | h | h | h
+    · rw [finish_settled lb lpd (Or.inl h)]
+      have := lexa (Or.inl h)
+      refine ⟨?_, ?_, ?_, ?_, ?_, ?_, ?_, ?_, ?_⟩ <;> simp only [mkOut, h] <;> (try intros) <;> first | fin | (simp [hstrict] at *; done)
+    · rw [finish_settled lb lpd (Or.inr (Or.inl h))]
+      have := lexa (Or.inr h)
+      refine ⟨?_, ?_, ?_, ?_, ?_, ?_, ?_, ?_, ?_⟩ <;> simp only [mkOut, h] <;> (try intros) <;> first | fin | (simp [hstrict] at *; done)
+    · rw [finish_settled lb lpd (Or.inr (Or.inr h))]
+      have hto := lto h
+      refine ⟨?_, ?_, ?_, ?_, ?_, ?_, ?_, ?_, ?_⟩ <;> simp only [mkOut, h] <;> (try intros) <;>
+        first | fin | (simp [hstrict] at *; done) | exact ⟨by rw [← p10]; exact hto.1, hto.2⟩
+    · rw [finish_unsettled (Or.inl h)]
+      have := not_envOK (lbad h)
+      refine ⟨?_, ?_, ?_, ?_, ?_, ?_, ?_, ?_, ?_⟩ <;> simp only [mkOut, h] <;> (try intros) <;> first | fin | (simp [hstrict] at *; done)
+    · rw [finish_unsettled (Or.inr h)]
+      have := lex h
+      refine ⟨?_, ?_, ?_, ?_, ?_, ?_, ?_, ?_, ?_⟩ <;> simp only [mkOut, h] <;> (try intros) <;> first | fin | (simp [hstrict] at *; done)
+
+theorem searchCall_returns (s : Ev) (c : Call) (env : List Step) (hW : 1 ≤ s.W) (hq : Quiet s)
+    (hn : 0 ≤ c.maxEvals) (hbt : badTimeout c = false) (hok : EnvOK s.W env)
+    (hexp : c.timeout = none ∨ NoExpiry env) (hlen : c.maxEvals ≤ (env.length : Int)) :
+    (searchCall {} s c env).2.stop = .budget ∨ (searchCall {} s c env).2.stop = .cap := by
+  have b := searchCall_budget s c env hW hq hn hbt
+  rcases b.stops with h | h | h | h | h
+  · exact Or.inl h
+  · exact Or.inr h
+  · obtain ⟨h1, st, hm, he⟩ := b.timeout h
+    rcases hexp with hx | hx
+    · rw [hx] at h1; simp at h1
+    · have := hx st hm; rw [this] at he; simp at he
+  · exact absurd hok (b.badEnv h)
+  · have := b.exhausted h; omega
+
+/-- total number of evaluations of a list of call results -/
+def totalEvals (outs : List Out) : Nat := (outs.map (·.evals)).sum
+
+theorem init_quiet (W : Nat) : Quiet (init W) := ⟨rfl, rfl, rfl, rfl, by simp [init]⟩
+
+/-- any history of settled calls leaves the evaluator quiescent, with one table row per
+evaluation ever performed -/
+theorem runCalls_settled : ∀ (hist : List (Call × List Step)) (s : Ev), 1 ≤ s.W → Quiet s →
+    (∀ o ∈ (runCalls {} s hist).2, Settled o) →
+    Quiet (runCalls {} s hist).1 ∧ (runCalls {} s hist).1.W = s.W ∧
+    (runCalls {} s hist).1.rows = s.rows + totalEvals (runCalls {} s hist).2
+  | [], s, _, hq, _ => by simp [runCalls, totalEvals, hq]
+  | (c, env) :: rest, s, hW, hq, hs => by
+    simp only [runCalls] at hs ⊢
+    have h1 := searchCall_settled s c env hW hq (hs _ (List.mem_cons_self ..))
+    obtain ⟨q, w, r, _⟩ := h1
+    have ih := runCalls_settled rest (searchCall {} s c env).1 (by omega) q
+      (fun o ho => hs o (List.mem_cons_of_mem _ ho))
+    obtain ⟨i1, i2, i3⟩ := ih
+    refine ⟨i1, by omega, ?_⟩
+    simp only [totalEvals, List.map_cons, List.sum_cons] at i3 ⊢
+    omega
 
 end DH.Search
